@@ -40,6 +40,8 @@ class Registry:
         self.contracts = {}  # qualname -> Contract
         self.classes = {}  # class name -> {"fields": {name: Ty}, "file":..., "consts": {...}}
         self.specfuns = {}  # name -> (argtys, retty)
+        self.specfun_alias = {}  # name -> symbol of a pure program function's value
+        self.z3axiom_scope = {}  # axiom name -> set of qualnames it is supplied to (absent: all)
         self.axioms = []  # (name, expr string)  TRUSTED
         self.lemmas = []  # (name, props, hyps[expr], goal expr, binders)
         self.externals = {}  # dotted name -> python handler(engine, st, args, kwargs, node) -> SV
@@ -59,8 +61,12 @@ class Registry:
         """a dict with a fixed set of constant string keys, modelled as an object with fields"""
         self.classes[name] = {"fields": dict(fields), "file": None, "record": True}
 
-    def specfun(self, name, argtys, retty):
+    def specfun(self, name, argtys, retty, value_of=None):
+        """an uninterpreted specification function; with value_of='qualname' it is *defined* as the value function of that
+        pure program function (the same symbol the prover uses for calls to it)"""
         self.specfuns[name] = (list(argtys), retty)
+        if value_of is not None:
+            self.specfun_alias[name] = "F_" + value_of.replace(".", "_")
 
     def axiom(self, name, expr):
         self.axioms.append((name, expr))
@@ -74,8 +80,11 @@ class Registry:
             return f
         return deco
 
-    def axiom_z3(self, name, builder, text):
+    def axiom_z3(self, name, builder, text, only=None):
+        """a trusted z3 fact; with only=[qualnames] it is supplied only while those functions are verified"""
         self.z3axioms.append((name, builder, text))
+        if only is not None:
+            self.z3axiom_scope[name] = set(only)
 
     def lemma_z3(self, name, props, builder):
         self.z3lemmas.append((name, list(props), builder))
